@@ -23,6 +23,7 @@ type c19Sys struct {
 	ctor string // NewBufferTransport | NewDefaultTransport
 	ops  []c19Op
 	B    *bytes.Buffer
+	fr   *c19Frame
 	T    apache.TTransport
 	fifo []byte
 	wn   int
@@ -39,6 +40,14 @@ func (o c19Op) String() string { return fmt.Sprintf("%s(%d)", o.kind, o.n) }
 var c19Payloads = [][]byte{{}, []byte("a"), []byte("bcd"), bytes.Repeat([]byte("0123456789"), 10), bytes.Repeat([]byte("0123456789abcdef"), 4400)} // the last one is > 64 KiB
 var c19Reads = []int{0, 1, 2, 200, 100000}
 
+// c19Frame: the caller's bytes.Buffer lives inside a larger object of the caller's (a connection struct, an array of
+// buffers); the memory right before and after it is not the transport's.
+type c19Frame struct {
+	pre  [32]byte
+	B    bytes.Buffer
+	post [32]byte
+}
+
 func newC19Sys(ctor string) *c19Sys {
 	s := &c19Sys{ctor: ctor}
 	for i := range c19Payloads {
@@ -54,7 +63,11 @@ func newC19Sys(ctor string) *c19Sys {
 func (s *c19Sys) NumOps() int         { return len(s.ops) }
 func (s *c19Sys) Enabled(op int) bool { return !s.dead }
 func (s *c19Sys) Reset() {
-	s.B = &bytes.Buffer{}
+	s.fr = &c19Frame{}
+	for i := range s.fr.pre {
+		s.fr.pre[i], s.fr.post[i] = 0xC3, 0xC3
+	}
+	s.B = &s.fr.B
 	if s.ctor == "NewBufferTransport" {
 		s.T = apache.NewBufferTransport(s.B)
 	} else {
@@ -147,6 +160,13 @@ func (s *c19Sys) Apply(op int, check bool) (what, sig string) {
 		}
 		if s.B.Len() != len(s.fifo) || !bytes.Equal(s.B.Bytes(), s.fifo) {
 			fail("handles-diverge", "the buffer handle sees %q, expected %q", s.B.Bytes(), s.fifo)
+			return
+		}
+		for i := range s.fr.pre {
+			if s.fr.pre[i] != 0xC3 || s.fr.post[i] != 0xC3 {
+				fail("neighbour-memory", "memory next to the caller's bytes.Buffer (which sits inside a larger struct) was modified: the transport is more than the buffer")
+				return
+			}
 		}
 	})
 	if pi != nil {
@@ -163,6 +183,7 @@ type c19Case struct {
 }
 
 type c19RL struct {
+	Full      bool  `json:"wrapped_object_is_itself_a_transport,omitempty"`
 	HasMethod bool  `json:"has_readable_len"`
 	N         int   `json:"readable_len"`
 	Later     []int `json:"later_values,omitempty"` // the wrapped object's readable length changes after it was wrapped
@@ -178,6 +199,27 @@ func (r *rwLen) Read(p []byte) (int, error)  { return r.buf.Read(p) }
 func (r *rwLen) Write(p []byte) (int, error) { return r.buf.Write(p) }
 func (r *rwLen) ReadableLen() int            { return r.n }
 
+// fullT is a user object that happens to implement every method of the transport interface itself (with its own,
+// different answers); wrapped in a generic transport it is still just the wrapped io.ReadWriter.
+type fullT struct {
+	b      *bytes.Buffer
+	rl     int
+	hasRL  bool
+	closed int
+}
+
+func (r *fullT) Read(p []byte) (int, error)    { return r.b.Read(p) }
+func (r *fullT) Write(p []byte) (int, error)   { return r.b.Write(p) }
+func (r *fullT) RemainingBytes() uint64        { return 42 }
+func (r *fullT) IsOpen() bool                  { return r.closed == 0 }
+func (r *fullT) Open() error                   { return errors.New("fullT: cannot reopen") }
+func (r *fullT) Close() error                  { r.closed++; r.b.Reset(); return nil }
+func (r *fullT) Flush(_ context.Context) error { return errors.New("fullT: flush fails") }
+
+type fullTRL struct{ *fullT }
+
+func (r fullTRL) ReadableLen() int { return r.rl }
+
 type plainRW struct{ b *bytes.Buffer }
 
 func (r plainRW) Read(p []byte) (int, error)  { return r.b.Read(p) }
@@ -186,12 +228,19 @@ func (r plainRW) Write(p []byte) (int, error) { return r.b.Write(p) }
 func c19ReadableLen(c *mc.Ctx, k c19RL) {
 	c.Eval(1)
 	bad := func(class, format string, a ...interface{}) {
-		c.Violate("generic", "C19|generic|"+class, fmt.Sprintf("generic transport over an object with ReadableLen()=%d (has method: %v): ", k.N, k.HasMethod)+fmt.Sprintf(format, a...), k)
+		c.Violate("generic", "C19|generic|"+class, fmt.Sprintf("generic transport over an object with ReadableLen()=%d (has method: %v; is itself a transport: %v): ", k.N, k.HasMethod, k.Full)+fmt.Sprintf(format, a...), k)
 	}
 	pi := mc.Try(func() {
 		var rw io.ReadWriter
 		var inner *bytes.Buffer
-		if k.HasMethod {
+		if k.Full {
+			inner = &bytes.Buffer{}
+			f := &fullT{b: inner, rl: k.N}
+			rw = f
+			if k.HasMethod {
+				rw = fullTRL{f}
+			}
+		} else if k.HasMethod {
 			x := &rwLen{n: k.N}
 			rw, inner = x, &x.buf
 		} else {
@@ -256,23 +305,31 @@ func c19Cross(c *mc.Ctx, k c19CB) {
 	apache.RegisterThriftWrite(nil)
 	reg := [3]int{}
 	calls := [3]int{}
+	ran := [3]int{} // how often each bridge's callback ran, ever
+	rets := map[int]error{}
 	pi := mc.Try(func() {
 		for si, st := range k.Steps {
 			b, act := st/2, st%2
 			if act == 0 {
 				reg[b] = si + 1
 				id := si + 1
+				var ret error
+				if (si+b)%2 == 0 {
+					ret = fmt.Errorf("result of the callback registered at step %d", si)
+				}
+				rets[id] = ret
 				switch b {
 				case 0:
-					apache.RegisterCheckTStruct(func(v interface{}) error { calls[0] = id; return nil })
+					apache.RegisterCheckTStruct(func(v interface{}) error { calls[0] = id; ran[0]++; return ret })
 				case 1:
-					apache.RegisterThriftRead(func(r bufiox.Reader, v interface{}) error { calls[1] = id; return nil })
+					apache.RegisterThriftRead(func(r bufiox.Reader, v interface{}) error { calls[1] = id; ran[1]++; return ret })
 				default:
-					apache.RegisterThriftWrite(func(w bufiox.Writer, v interface{}) error { calls[2] = id; return nil })
+					apache.RegisterThriftWrite(func(w bufiox.Writer, v interface{}) error { calls[2] = id; ran[2]++; return ret })
 				}
 				continue
 			}
 			calls[b] = 0
+			before := ran
 			var err error
 			switch b {
 			case 0:
@@ -283,13 +340,22 @@ func c19Cross(c *mc.Ctx, k c19CB) {
 				err = apache.ThriftWrite(nil, si)
 			}
 			name := []string{"check", "read", "write"}[b]
+			for o := 0; o < 3; o++ {
+				if o != b && ran[o] != before[o] {
+					bad("foreign-callback-ran", "step %d: calling the %s bridge ran the %s callback as well", si, name, []string{"check", "read", "write"}[o])
+					return
+				}
+			}
 			if reg[b] == 0 {
 				if err == nil || calls[b] != 0 {
 					bad("unregistered", "step %d: the %s callback was never registered but the call returned %v (callback ran: %v)", si, name, err, calls[b] != 0)
 					return
 				}
-			} else if err != nil || calls[b] != reg[b] {
-				bad("lost-registration", "step %d: the %s callback registered at step %d did not run (ran %d, err %v) — a registration of another bridge disturbed it", si, name, reg[b]-1, calls[b]-1, err)
+			} else if calls[b] != reg[b] || ran[b] != before[b]+1 {
+				bad("lost-registration", "step %d: the %s callback registered at step %d did not run exactly once (ran #%d, %d times, err %v) — a registration of another bridge disturbed it", si, name, reg[b]-1, calls[b]-1, ran[b]-before[b], err)
+				return
+			} else if err != rets[reg[b]] {
+				bad("result", "step %d: the %s callback returned %v but the bridge returned %v", si, name, rets[reg[b]], err)
 				return
 			}
 		}
@@ -464,8 +530,10 @@ func c19Run(c *mc.Ctx) {
 	c.Sample("history", []string{"Twrite(2)", "Bread(1)", "Tclose(0)", "Bwrite(1)", "Tread(200)"})
 	if c.Mine() {
 		c19ReadableLen(c, c19RL{HasMethod: false})
+		c19ReadableLen(c, c19RL{Full: true})
 		for _, n := range []int{math.MinInt, -2, -1, 0, 1, 2, 4096, math.MaxInt} {
 			c19ReadableLen(c, c19RL{HasMethod: true, N: n})
+			c19ReadableLen(c, c19RL{Full: true, HasMethod: true, N: n})
 			for _, later := range [][]int{{5}, {0, 7}, {-1, 3, 0}, {9, -2, 1}} {
 				c19ReadableLen(c, c19RL{HasMethod: true, N: n, Later: later})
 			}
